@@ -255,15 +255,21 @@ func ExtractInputs(o *Obligation, cfg *SolverCfg) map[string]any {
 	}
 	var vals map[string]*sx
 	used := ""
-	for _, s := range solvers {
-		if s == "" || s == "cvc5" {
-			continue
+	for _, variant := range []string{smt, base + "\n(check-sat)\n"} {
+		for _, s := range solvers {
+			if s == "" || s == "cvc5" {
+				continue
+			}
+			v, res := getValues(s, variant, terms, cfg.Dir, sanitize(o.Name), cfg.Timeout)
+			if res == "sat" && v != nil {
+				vals, used = v, s
+				break
+			}
 		}
-		v, res := getValues(s, smt, terms, cfg.Dir, sanitize(o.Name), cfg.Timeout)
-		if res == "sat" && v != nil {
-			vals, used = v, s
+		if vals != nil {
 			break
 		}
+		limits = nil
 	}
 	if vals == nil {
 		return nil
